@@ -12,6 +12,7 @@ Harness C (public API, concrete gate + replay channel): overload sets through
 Compiler().Compile and the VM; each overload returns a distinct constant.
 """
 import io
+import os
 import random
 import itertools
 import contextlib
@@ -250,10 +251,41 @@ def run_program(src, args):
         return ("crash", f"{type(e).__name__}: {e}", target)
 
 
-def _check_program(cands, args):
+def _split_program(cands, args, in_lib):
+    """the overload set split over an import edge: candidates with an index in `in_lib` are declared by a library module (stored in a scratch
+    directory), the others and the caller by the importing module.  -> (text for the report, outcome as run_program gives it)"""
+    import pickle, tempfile, shutil
+    from nsl import Compiler
+    lines = _program(cands, args).split("\n")
+    lib = "\n".join(l for i, l in enumerate(lines[:-1]) if i in in_lib)
+    tmp = tempfile.mkdtemp(prefix="verif-c10-")
+    try:
+        out = io.StringIO()
+        try:
+            with contextlib.redirect_stdout(out), contextlib.redirect_stderr(out):
+                r = Compiler.Compiler().Compile(lib)
+        except Exception as e:  # noqa: BLE001 -- e.g. two identical signatures inside the library: not a case of this family
+            return None, None
+        if r is None:
+            return None, None
+        path = os.path.join(tmp, "lib.nslir")
+        with open(path, "wb") as f:
+            pickle.dump(r.IRModule, f)
+        main = f'import "{path}";\n' + "\n".join(l for i, l in enumerate(lines[:-1]) if i not in in_lib) + "\n" + lines[-1]
+        return ("-- library --\n" + lib + "\n-- importing module --\n" + main.replace(path, "lib.nslir")), run_program(main, args)
+    finally:
+        shutil.rmtree(tmp, ignore_errors=True)
+
+
+def _check_program(cands, args, in_lib=None):
     src = _program(cands, args)
     want = O3.resolve(cands, args)
-    got = run_program(src, args)
+    if in_lib:
+        src, got = _split_program(cands, args, set(in_lib))
+        if src is None:
+            return None
+    else:
+        got = run_program(src, args)
     if want[0] == "ok":
         mangled = "@h->int`" + ",".join(O3.spell(t) for t in cands[want[1]])
         if got[0] == "ok":
@@ -303,12 +335,23 @@ def _public(inst):
         elif inst["family"] == "unknown":
             yield [], [U[0]]
             yield [], []
-    for idx, (cands, args) in enumerate(cases()):
+        elif inst["family"] == "import-split":
+            # overload sets of two and three one-parameter functions, every non-empty part of them declared by an imported module
+            sets = [list(c) for c in itertools.product(sigs1, repeat=2) if c[0] != c[1]] + rnd.sample([list(c) for c in itertools.product(sigs1, repeat=3) if len(set(c)) == 3], 40)
+            for c in sets:
+                for k in range(1, len(c) + 1):
+                    for part in itertools.combinations(range(len(c)), k):
+                        for a in rnd.sample(sigs1, 3):
+                            yield c, list(a), list(part)
+    for idx, case in enumerate(cases()):
+        cands, args = case[0], case[1]
+        in_lib = case[2] if len(case) > 2 else None
         if idx % inst.get("of", 1) != inst.get("shard", 0):
             continue
         res["paths"] += 1
-        b = _check_program(cands, args)
+        b = _check_program(cands, args, in_lib)
         if b:
+            b["in_lib"] = in_lib
             bad.append((cands, args, b))
     seen = set()
     for cands, args, b in bad:
@@ -317,7 +360,7 @@ def _public(inst):
             continue
         seen.add(key)
         res["violations"].append(dict(what=f"overload resolution ({len(bad)} programs of this family differ), e.g. expected {b['expected']} observed {b['observed']} for\n{b['source']}",
-                                      replay=dict(harness="C10", inst=dict(part="public"), cands=cands, args=args)))
+                                      replay=dict(harness="C10", inst=dict(part="public"), cands=cands, args=args, in_lib=b.get("in_lib"))))
     return res
 
 
@@ -326,7 +369,7 @@ def replay(spec):
     inst = spec["inst"]
     part = inst.get("part")
     if part == "public":
-        return _check_program([tuple(_tup(t) for t in c) for c in _tup(spec["cands"])], [_tup(t) for t in _tup(spec["args"])])
+        return _check_program([tuple(_tup(t) for t in c) for c in _tup(spec["cands"])], [_tup(t) for t in _tup(spec["args"])], spec.get("in_lib"))
     inp = spec.get("inputs", {})
     if part == "ranking":
         # realise the scores with int arguments: parameter int -> 0, float -> 1, float2 -> -1
@@ -430,6 +473,7 @@ def instances(tier, seed):
         out += [dict(part="public", family="1p-triples", seed=seed, shard=s, of=4) for s in range(4)]
         out += [dict(part="public", family="2p-pairs", seed=seed, shard=s, of=32) for s in range(32)]
     out.append(dict(part="public", family="mixed-arity", seed=seed))
+    out += [dict(part="public", family="import-split", seed=seed, shard=sh, of=4) for sh in range(4)]
     out.append(dict(part="public", family="unknown", seed=seed))
     return out
 
